@@ -236,3 +236,67 @@ func VHOptionRendering() {
 	}
 	vReach("options")
 }
+
+// vMultiByte: one character encoded in two or three bytes (symbolic), not a Unicode space.
+func vMultiByte(tag string) string {
+	if vChoose(tag+".three", 2) == 0 {
+		l, c := vByte(tag+".l"), vByte(tag+".c")
+		vAssume(vAnd(vAnd(l >= 0xC2, l <= 0xDF), vAnd(c >= 0x80, c <= 0xBF)))
+		vAssume(!vAnd(l == 0xC2, vOr(c == 0x85, c == 0xA0))) // U+0085, U+00A0 are spaces
+		return string([]byte{l, c})
+	}
+	l, c, d := vByte(tag+".l"), vByte(tag+".c"), vByte(tag+".d")
+	vAssume(vAnd(vAnd(l >= 0xE1, l <= 0xEC), vAnd(vAnd(c >= 0x80, c <= 0xBF), vAnd(d >= 0x80, d <= 0xBF))))
+	// the spaces of that range: U+1680, U+2000..U+200A, U+2028, U+2029, U+202F, U+205F, U+3000 (all of E2 80 xx is left out)
+	vAssume(!vAnd(l == 0xE1, vAnd(c == 0x9A, d == 0x80)))
+	vAssume(!vAnd(l == 0xE2, vOr(c == 0x80, vAnd(c == 0x81, d == 0x9F))))
+	vAssume(!vAnd(l == 0xE3, vAnd(c == 0x80, d == 0x80)))
+	return string([]byte{l, c, d})
+}
+
+// VHDisplayForms (C04): the display forms the element generator above leaves out, one line each: whole numbers beyond
+// the 32-bit range (a finite set up to 2^52) are shown as integers, without a decimal point or an exponent; literal text and string
+// values made of multi-byte characters (two- and three-byte encodings, any continuation bytes) are shown
+// verbatim, at the edges of the line as well as inside.
+func VHDisplayForms() {
+	st := variable.NewInMemoryStorer()
+	var els []*tree.LineFormattedTextElement
+	want := ""
+	form := vParam("FORM", -1)
+	if form < 0 {
+		form = vChoose("form", 5)
+	}
+	switch form {
+	case 0:
+		// wide whole numbers from a finite set around the 32-bit and 2^52 boundaries (a symbolic 64-bit decimal
+		// rendering is a division kernel the solvers do not finish; narrow whole numbers are symbolic in VHLineRendering)
+		i := []int{2147483647, 2147483648, -2147483648, -2147483649, 4294967296, 8000000000, -3000000000, 1000000000000000,
+			4503599627370495, -4503599627370496}[vChoose("whole", 10)]
+		els = []*tree.LineFormattedTextElement{{Expression: vValExpr(variable.NewNumber(float64(i)))}}
+		want = strconv.Itoa(i)
+		vReach("whole-number")
+	case 1: // the line ends with a multi-byte character
+		want = string([]byte{vPlainByte("c")}) + vMultiByte("m")
+		els = []*tree.LineFormattedTextElement{{Text: want}}
+		vReach("multi-byte-end")
+	case 2: // ... begins with one
+		want = vMultiByte("m") + string([]byte{vPlainByte("c")})
+		els = []*tree.LineFormattedTextElement{{Text: want}}
+	case 3: // ... is one
+		want = vMultiByte("m")
+		els = []*tree.LineFormattedTextElement{{Text: want}}
+	default: // a string value ending with one, interpolated at the end of the line
+		s := string([]byte{vPlainByte("c")}) + vMultiByte("m")
+		els = []*tree.LineFormattedTextElement{{Text: "x "}, {Expression: vValExpr(variable.NewString(s))}}
+		want = "x " + s
+		vReach("multi-byte-value")
+	}
+	stmt := &tree.Statement{LineStatement: &tree.LineStatement{Text: &tree.LineFormattedText{Elements: els}}}
+	dr := vRunnerOver(st, stmt)
+	el, err := dr.Next(vInt("choice"))
+	vAssert(err == nil && el != nil && el.Line != nil, "a line is returned")
+	if err != nil || el == nil || el.Line == nil {
+		return
+	}
+	vAssert(el.Line.Text == want, "whole numbers are shown as integers, multi-byte text verbatim")
+}
